@@ -18,7 +18,7 @@ import (
 func init() { register("C10", checkC10) }
 
 func checkC10(c *core.Ctx) {
-	c.Explainf("C10 (decided clauses, go/cfg path rules on parse.go and tokenize.go). R1: in ReadFile every path from a false result of tr.Next() to a return whose error is nil passes a call of tr.Err() whose result is returned — Next() is false without an error only at a clean EOF, so success implies the whole input was tokenized; expectNext/expectAnyOfNext test tr.Err() right after Next(). R2: a failed Next() invalidates the current token on every failing return, and UnNext() is only called while the current token is valid (typestate over each function of parse.go) — otherwise the previous token is delivered again (an unterminated union is accepted because the branch's '}' is taken for the union's). R3: every unreadByte() is dominated by a successful byte read whose error was tested; in Next() a reader failure in findFirst returns before unreadByte(). R4: the explicit panic of decodeIntegerType is fenced: its case constants cover every key of uintTypes and intTypes, the only names readEnum lets through. R5: no inner node of the token tree built by newTokenTree has a successor set whose first sorted label is the synthetic \"number\" (the recovery path indexes successors by that label's first byte). NOT decided: termination of the tokenizer loops as such; implicit bounds-check panics elsewhere in the parser.")
+	c.Explainf("C10 (decided clauses, go/cfg path rules on parse.go and tokenize.go). R1: in ReadFile every path from a false result of tr.Next() to a return whose error is nil passes a call of tr.Err() whose result is returned — Next() is false without an error only at a clean EOF, so success implies the whole input was tokenized; expectNext/expectAnyOfNext test tr.Err() right after Next(). R2: a failed Next() invalidates the current token on every failing return, and UnNext() is only called while the current token is valid (typestate over each function of parse.go) — otherwise the previous token is delivered again (an unterminated union is accepted because the branch's '}' is taken for the union's). R3: every unreadByte() is dominated by a successful byte read whose error was tested; in Next() a reader failure in findFirst returns before unreadByte(). R4: the explicit panic of decodeIntegerType is fenced: its case constants cover every key of uintTypes and intTypes, the only names readEnum lets through. R5: no inner node of the token tree built by newTokenTree has a successor set whose first sorted label is the synthetic \"number\" (the recovery path indexes successors by that label's first byte). R6: every tokenizer function that reads the underlying reader records a failing read as an error and adds the end-of-input sentinel only for io.EOF. R7: a block comment token is long enough for readBlockComment's slice. R8: every index into a slice or string (and every slice-to-array conversion) in parse.go, parse_expr.go, eval_expr.go, tokenize.go and token_tree.go is proven in bounds by one of the enumerated idioms — a dominating `if len(x)… {return}`, an enclosing if/for condition, the arity of the expectNext call that produced the slice (expectNext's own contract is checked), a range over a same-length make, a counting fill, or, for a parameter, the same proof at every call site; token counts and token text are input-controlled, so an unproven index is an input that panics. NOT decided: termination of the tokenizer loops as such; slice expressions x[a:b] other than those of R7; nil-map and nil-pointer panics.")
 	p := loadRepo(c)
 	if p == nil {
 		return
@@ -94,9 +94,9 @@ func checkC10(c *core.Ctx) {
 			for i, s := range blk.List {
 				if containsCall(s, func(call *ast.CallExpr) bool { return isMethodCall(call, "tr", "Next") }) && i+1 < len(blk.List) {
 					if ifs, is := blk.List[i+1].(*ast.IfStmt); is {
-						if x, is := nilTestExpr(ifs.Cond); is && x == "tr.Err()" && endsInReturn(ifs.Body) {
+						if be, is := ast.Unparen(ifs.Cond).(*ast.BinaryExpr); is && be.Op == token.NEQ && wire.Canon(be.Y) == "nil" && trCanon(be.X) == "tr.Err()" && endsInReturn(ifs.Body) {
 							r := ifs.Body.List[len(ifs.Body.List)-1].(*ast.ReturnStmt)
-							if wire.Canon(r.Results[len(r.Results)-1]) == "tr.Err()" {
+							if trCanon(r.Results[len(r.Results)-1]) == "tr.Err()" {
 								ok = true
 							}
 						}
@@ -146,7 +146,7 @@ func checkNextInvalidates(c *core.Ctx, p *load.Prog) {
 	}
 	invalidates := func(n ast.Node) bool {
 		as, ok := n.(*ast.AssignStmt)
-		if !ok || len(as.Lhs) != 1 || len(as.Rhs) != 1 || wire.Canon(as.Lhs[0]) != "tr.nextToken" {
+		if !ok || len(as.Lhs) != 1 || len(as.Rhs) != 1 || trCanon(as.Lhs[0]) != "tr.nextToken" {
 			return false
 		}
 		cl, ok := ast.Unparen(as.Rhs[0]).(*ast.CompositeLit)
@@ -342,13 +342,53 @@ func checkUnreadByte(c *core.Ctx, p *load.Prog) {
 		if name == "Next" || name == "next" {
 			// findFirst may fail because the reader failed: then nothing can be unread
 			okGuard := false
+			info := pkg.TypesInfo
+			// the bool result of findFirst
+			var found types.Object
+			ast.Inspect(fd.Body, func(n ast.Node) bool {
+				if as, is := n.(*ast.AssignStmt); is && len(as.Lhs) == 2 && len(as.Rhs) == 1 {
+					if call, isC := as.Rhs[0].(*ast.CallExpr); isC {
+						if cal := load.Callee(info, call); cal != nil && cal.Name() == "findFirst" {
+							if id, isId := as.Lhs[1].(*ast.Ident); isId {
+								found = info.ObjectOf(id)
+							}
+						}
+					}
+				}
+				return true
+			})
+			var unreadPos token.Pos
+			ast.Inspect(fd.Body, func(n ast.Node) bool {
+				if call, is := n.(*ast.CallExpr); is && isMethodCall(call, "tr", "unreadByte") && unreadPos == 0 {
+					unreadPos = call.Pos()
+				}
+				return true
+			})
+			// if !<found> && <something about the recorded errors> { return … } before the unread
 			ast.Inspect(fd.Body, func(n ast.Node) bool {
 				ifs, is := n.(*ast.IfStmt)
-				if !is {
+				if !is || !endsInReturn(ifs.Body) || ifs.Pos() > unreadPos {
 					return true
 				}
-				src := wire.Canon(ifs.Cond)
-				if strings.Contains(src, "!ok") && strings.Contains(src, "tr.errs") && endsInReturn(ifs.Body) {
+				notFound, errs := false, false
+				ast.Inspect(ifs.Cond, func(k ast.Node) bool {
+					switch x := k.(type) {
+					case *ast.UnaryExpr:
+						if id, isId := ast.Unparen(x.X).(*ast.Ident); isId && x.Op == token.NOT && found != nil && info.ObjectOf(id) == found {
+							notFound = true
+						}
+					case *ast.SelectorExpr:
+						if x.Sel.Name == "errs" {
+							errs = true
+						}
+					case *ast.CallExpr:
+						if isMethodCall(x, "tr", "Err") {
+							errs = true
+						}
+					}
+					return true
+				})
+				if notFound && errs {
 					okGuard = true
 				}
 				return true
@@ -370,8 +410,19 @@ func checkUnreadByte(c *core.Ctx, p *load.Prog) {
 					}
 				}
 			case *ast.IfStmt:
-				src := wire.Canon(x.Cond)
-				if (strings.HasPrefix(src, "err != nil") || strings.HasPrefix(src, "err == io.EOF")) && endsInReturn(x.Body) {
+				// a test of an error variable (against nil or io.EOF) that leaves the function
+				testsErr := false
+				ast.Inspect(x.Cond, func(k ast.Node) bool {
+					if be, isB := k.(*ast.BinaryExpr); isB && (be.Op == token.NEQ || be.Op == token.EQL) {
+						if id, isId := ast.Unparen(be.X).(*ast.Ident); isId {
+							if o := pkg.TypesInfo.ObjectOf(id); o != nil && isErrorType(o.Type()) {
+								testsErr = true
+							}
+						}
+					}
+					return true
+				})
+				if testsErr && endsInReturn(x.Body) {
 					tested = true
 				}
 			}
@@ -469,9 +520,25 @@ func checkDecodeIntegerFence(c *core.Ctx, p *load.Prog) {
 	if re != nil {
 		gate := false
 		ast.Inspect(re.Body, func(n ast.Node) bool {
-			if ifs, ok := n.(*ast.IfStmt); ok {
-				src := wire.Canon(ifs.Cond)
-				if strings.Contains(src, "!isUintPrimitive(") && strings.Contains(src, "!isIntPrimitive(") && endsInReturn(ifs.Body) {
+			if ifs, ok := n.(*ast.IfStmt); ok && endsInReturn(ifs.Body) {
+				// !isUintPrimitive(x) && !isIntPrimitive(x)
+				neg := map[string]bool{}
+				var conj func(e ast.Expr)
+				conj = func(e ast.Expr) {
+					e = ast.Unparen(e)
+					if be, isB := e.(*ast.BinaryExpr); isB && be.Op == token.LAND {
+						conj(be.X)
+						conj(be.Y)
+						return
+					}
+					if u, isU := e.(*ast.UnaryExpr); isU && u.Op == token.NOT {
+						if call, isC := ast.Unparen(u.X).(*ast.CallExpr); isC {
+							neg[wire.Canon(call.Fun)] = true
+						}
+					}
+				}
+				conj(ifs.Cond)
+				if neg["isUintPrimitive"] && neg["isIntPrimitive"] {
 					gate = true
 				}
 			}
@@ -632,6 +699,7 @@ func checkErrorRecording(c *core.Ctx, p *load.Prog) {
 	n := 0
 	for _, fd := range funcsOfFiles(p, pkg, "tokenize.go", "token_tree.go") {
 		reads := false
+		errVars := map[types.Object]bool{}
 		ast.Inspect(fd.Body, func(m ast.Node) bool {
 			as, ok := m.(*ast.AssignStmt)
 			if !ok || len(as.Rhs) != 1 {
@@ -641,11 +709,14 @@ func checkErrorRecording(c *core.Ctx, p *load.Prog) {
 			if !ok {
 				return true
 			}
-			fn := wire.Canon(call.Fun)
+			fn := trCanon(call.Fun)
 			if fn == "tr.readByte" || fn == "tr.r.ReadRune" || fn == "tr.r.ReadBytes" {
 				if len(as.Lhs) >= 2 {
-					if id, ok := as.Lhs[len(as.Lhs)-1].(*ast.Ident); ok && id.Name == "err" {
-						reads = true
+					if id, ok := as.Lhs[len(as.Lhs)-1].(*ast.Ident); ok && id.Name != "_" {
+						if o := pkg.TypesInfo.ObjectOf(id); o != nil && isErrorType(o.Type()) {
+							reads = true
+							errVars[o] = true
+						}
 					}
 				}
 			}
@@ -663,10 +734,23 @@ func checkErrorRecording(c *core.Ctx, p *load.Prog) {
 			if !ok {
 				return true
 			}
-			cs := wire.Canon(ifs.Cond)
-			if (cs == "err != nil" || strings.HasPrefix(cs, "err != nil &&")) && endsInReturn(ifs.Body) {
+			// `<err> != nil [&& …]` on the error of the read
+			first := ast.Unparen(ifs.Cond)
+			for {
+				be, isB := first.(*ast.BinaryExpr)
+				if !isB || be.Op != token.LAND {
+					break
+				}
+				first = ast.Unparen(be.X)
+			}
+			ev, isErr := errNilTest(pkg.TypesInfo, first)
+			if isErr && errVars[ev] && endsInReturn(ifs.Body) {
 				if containsCall(ifs.Body, func(call *ast.CallExpr) bool {
-					return isMethodCall(call, "tr", "addError") && len(call.Args) == 1 && wire.Canon(call.Args[0]) == "err"
+					if !isMethodCall(call, "tr", "addError") || len(call.Args) != 1 {
+						return false
+					}
+					id, ok := ast.Unparen(call.Args[0]).(*ast.Ident)
+					return ok && pkg.TypesInfo.ObjectOf(id) == ev
 				}) {
 					recorded = true
 				}
@@ -682,7 +766,7 @@ func checkErrorRecording(c *core.Ctx, p *load.Prog) {
 			ast.Inspect(nd, func(m ast.Node) bool {
 				switch x := m.(type) {
 				case *ast.IfStmt:
-					isEOF := wire.Canon(x.Cond) == "err == io.EOF"
+					isEOF := isEOFTest(pkg.TypesInfo, x.Cond)
 					if x.Init != nil {
 						walk(x.Init, underEOF)
 					}
@@ -694,8 +778,7 @@ func checkErrorRecording(c *core.Ctx, p *load.Prog) {
 				case *ast.CaseClause:
 					isEOF := false
 					for _, e := range x.List {
-						cs := wire.Canon(e)
-						if cs == "err == io.EOF" || cs == "io.EOF" {
+						if isEOFTest(pkg.TypesInfo, e) || wire.Canon(e) == "io.EOF" {
 							isEOF = true
 						}
 					}
@@ -794,4 +877,21 @@ func checkBlockCommentLength(c *core.Ctx, p *load.Prog) {
 	})
 	c.Check("R7", fmt.Sprintf("a block comment token is at least %d bytes long", need), p.Pos(fd.Pos()), ok && need > 0,
 		why+": `/*/` would be accepted as a comment of 3 bytes and readBlockComment's slice panics")
+}
+
+
+// isEOFTest matches `<error variable> == io.EOF` and errors.Is(<error>, io.EOF).
+func isEOFTest(info *types.Info, e ast.Expr) bool {
+	e = ast.Unparen(e)
+	if be, ok := e.(*ast.BinaryExpr); ok && be.Op == token.EQL && wire.Canon(be.Y) == "io.EOF" {
+		if id, ok := ast.Unparen(be.X).(*ast.Ident); ok {
+			if o := info.ObjectOf(id); o != nil && isErrorType(o.Type()) {
+				return true
+			}
+		}
+	}
+	if call, ok := e.(*ast.CallExpr); ok && wire.Canon(call.Fun) == "errors.Is" && len(call.Args) == 2 && wire.Canon(call.Args[1]) == "io.EOF" {
+		return true
+	}
+	return false
 }
